@@ -4,6 +4,7 @@
 -/
 import Lean.Data.Json
 import CxxModel.Interp
+import CxxModel.SimpleFold
 open Lean
 namespace Cxx.J
 
@@ -173,5 +174,51 @@ def event (e : Event) : Json :=
     ("parent", opt (fun (n : Nat) => toJson n) e.parentId), ("loc", loc e.loc),
     ("access", opt Json.str e.access), ("hdr", hdr e.hdr),
     ("payload", match e.kind with | .item p => payload p | _ => Json.null)]
+
+end Cxx.J
+
+namespace Cxx.J
+
+def typedefJ (t : Typedef) : Json := payload (.typedef t)
+def variableJ (v : Variable) : Json := payload (.variable v)
+def usingDeclJ (u : UsingDecl) : Json := payload (.usingDeclaration u)
+def usingAliasJ (u : UsingAlias) : Json := payload (.usingAlias u)
+def fieldJ (f : Field) : Json := payload (.classField f)
+def friendJ (f : FriendDecl) : Json := payload (.classFriend f)
+def arr (l : List Json) : Json := Json.arr l.toArray
+
+mutual
+  def scopeJ : Scope → Json
+    | .ns name inl dox it cls nss =>
+      obj "NamespaceScope" [("name", name), ("inline", inl), ("doxygen", opt Json.str dox),
+        ("classes", arr (scopesJ cls)), ("enums", arr (it.enums.map enumDecl)),
+        ("functions", arr (it.functions.map function)), ("method_impls", arr (it.methodImpls.map function)),
+        ("typedefs", arr (it.typedefs.map typedefJ)), ("variables", arr (it.variables.map variableJ)),
+        ("forward_decls", arr (it.forwardDecls.map forwardDecl)), ("using", arr (it.usingDecls.map usingDeclJ)),
+        ("using_ns", arr (it.usingNs.map (fun (s : String) => obj "UsingNamespace" [("ns", Json.str s)]))),
+        ("using_alias", arr (it.usingAlias.map usingAliasJ)),
+        ("ns_alias", arr (it.nsAlias.map (fun a => payload (.namespaceAlias a)))),
+        ("concepts", arr (it.concepts.map (fun c => payload (.concept c)))),
+        ("template_insts", arr (it.templateInsts.map (fun t => payload (.templateInst t)))),
+        ("namespaces", Json.mkObj (nssJ nss)),
+        ("deduction_guides", arr (it.deductionGuides.map (fun g => payload (.deductionGuide g))))]
+    | .cls decl it cls =>
+      obj "ClassScope" [("class_decl", classDecl decl), ("classes", arr (scopesJ cls)),
+        ("enums", arr (it.enums.map enumDecl)), ("fields", arr (it.fields.map fieldJ)),
+        ("friends", arr (it.friends.map friendJ)), ("methods", arr (it.methods.map function)),
+        ("typedefs", arr (it.typedefs.map typedefJ)), ("forward_decls", arr (it.forwardDecls.map forwardDecl)),
+        ("using", arr (it.usingDecls.map usingDeclJ)), ("using_alias", arr (it.usingAlias.map usingAliasJ))]
+  def scopesJ : List Scope → List Json
+    | [] => []
+    | s :: r => scopeJ s :: scopesJ r
+  def nssJ : List (String × Scope) → List (String × Json)
+    | [] => []
+    | (n, s) :: r => (n, scopeJ s) :: nssJ r
+end
+
+def parsedData (fs : FoldState) : Json :=
+  obj "ParsedData" [("namespace", scopeJ fs.root),
+    ("pragmas", arr (fs.pragmas.map (fun v => obj "Pragma" [("content", value v)]))),
+    ("includes", arr (fs.includes.map (fun (f : String) => obj "Include" [("filename", Json.str f)])))]
 
 end Cxx.J
